@@ -13,6 +13,10 @@ class Ret(Exception):
         self.v = v
 
 
+class Thrown(Exception):
+    """the interpreted function threw"""
+
+
 class Closure:
     def __init__(self, node, env, this):
         self.node = node
@@ -81,9 +85,29 @@ class Evaluator:
                 self.block(s["else"], env, this)
         elif k == "return":
             raise Ret(self.eval(s.get("e"), env, this) if s.get("e") is not None else None)
+        elif k == "for":
+            if s.get("init"):
+                self.block(s["init"], env, this)
+            n = 0
+            while s.get("c") is None or self.truth(self.eval(s["c"], env, this)):
+                self.block(s["body"], env, this)
+                if s.get("inc") is not None:
+                    self.eval(s["inc"], env, this)
+                n += 1
+                if n > 10000:
+                    raise Broken("loop does not terminate on the abstract domain")
+        elif k == "while":
+            n = 0
+            while self.truth(self.eval(s["c"], env, this)):
+                self.block(s["body"], env, this)
+                n += 1
+                if n > 10000:
+                    raise Broken("loop does not terminate on the abstract domain")
+        elif k == "throw":
+            raise Thrown(s.get("l"))
         elif k == "null":
             return
-        elif k in ("call", "asg", "un", "bin", "cond"):
+        elif k in ("call", "asg", "un", "bin", "cond", "ctor", "cast"):
             if k == "cond" or k == "call":
                 # assert(...) expands to a conditional calling __assert_fail: ignore
                 from cfg import contains_assert
@@ -135,6 +159,21 @@ class Evaluator:
             if len(e["a"]) == 1:
                 return self.eval(e["a"][0], env, this)
             raise Broken("comparator constructs %s (unmodelled)" % e.get("c"))
+        if k == "asg":
+            rhs = self.eval(e["rhs"], env, this)
+            op = e["op"]
+            if op != "=":
+                cur = self.eval(e["lhs"], env, this)
+                rhs = self.arith(op[:-1], cur, rhs)
+            self.store(e["lhs"], rhs, env, this)
+            return rhs
+        if k == "throw":
+            raise Thrown(e.get("l"))
+        if k == "un" and e["op"] in ("++", "--"):
+            cur = self.eval(e["e"], env, this)
+            new = self.arith("+" if e["op"] == "++" else "-", cur, 1)
+            self.store(e["e"], new, env, this)
+            return cur if e.get("post") else new
         if k == "un":
             op = e["op"]
             if op == "&":
@@ -169,6 +208,8 @@ class Evaluator:
             raise Broken("comparator reads field %s of an object the domain does not model" % e["n"])
         if k == "cast":
             return self.eval(e["e"], env, this)
+        if k == "sizeof" and "iv" in e:
+            return int(e["iv"])
         if k == "call":
             f = e.get("f", "")
             # smart pointer / optional see-through
@@ -187,6 +228,8 @@ class Evaluator:
                     return callee(self, args)
                 raise Broken("call through an object the evaluator does not model at %s" % e.get("l"))
             h = self.hook_for(f)
+            if h is None and e.get("fn") and ("method:" + e["fn"]) in self.hooks and not e.get("own"):
+                h = self.hooks["method:" + e["fn"]]
             if h is not None:
                 obj = self.eval(e["obj"], env, this) if e.get("obj") is not None else None
                 args = [self.eval(a, env, this) for a in e.get("a", [])]
@@ -199,6 +242,35 @@ class Evaluator:
                 return self.binop(e["op"], a, b)
             raise Broken("comparator calls %s, for which the abstract domain has no summary (at %s)" % (f or e.get("fn"), e.get("l")))
         raise Broken("comparator uses an expression kind the evaluator does not model: %s" % k)
+
+    def arith(self, op, a, b):
+        if hasattr(a, "arith"):
+            return a.arith(op, b)
+        if isinstance(a, (int, bool)) and isinstance(b, (int, bool)):
+            a, b = int(a), int(b)
+            try:
+                return {"+": a + b, "-": a - b, "*": a * b, "<<": a << b, ">>": a >> b, "|": a | b, "&": a & b, "^": a ^ b}[op]
+            except KeyError:
+                raise Broken("unmodelled arithmetic operator %s" % op)
+        raise Broken("unmodelled arithmetic %s on %r, %r" % (op, type(a).__name__, type(b).__name__))
+
+    def store(self, lhs, val, env, this):
+        u = lhs
+        while isinstance(u, dict) and u.get("k") == "cast":
+            u = u["e"]
+        if u.get("k") == "ref":
+            env[u["id"]] = val
+            return
+        if u.get("k") == "mem":
+            b = self.eval(u["b"], env, this)
+            if isinstance(b, dict):
+                b[u["n"]] = val
+            else:
+                if hasattr(b, "on_store"):
+                    val = b.on_store(u["n"], val)
+                setattr(b, u["n"], val)
+            return
+        raise Broken("store to an lvalue the evaluator does not model: %s" % u.get("k"))
 
     def binop(self, op, a, b):
         isptr = lambda x: x is None or hasattr(x, "addr")
@@ -219,6 +291,11 @@ class Evaluator:
             if op == "!=":
                 return a != b
         if isinstance(a, (int, bool)) and isinstance(b, (int, bool)):
-            return {"==": a == b, "!=": a != b, "<": a < b, ">": a > b, "<=": a <= b, ">=": a >= b,
-                    "+": a + b, "-": a - b}[op]
+            if op in ("==", "!=", "<", ">", "<=", ">="):
+                return {"==": a == b, "!=": a != b, "<": a < b, ">": a > b, "<=": a <= b, ">=": a >= b}[op]
+            return self.arith(op, a, b)
+        if hasattr(a, "arith") and op in ("+", "-"):
+            return a.arith(op, b)
+        if hasattr(a, "cmp_with") and op in ("==", "!=", "<", ">", "<=", ">="):
+            return a.cmp_with(op, b)
         raise Broken("unmodelled comparison %s between %r and %r" % (op, type(a).__name__, type(b).__name__))
